@@ -78,7 +78,7 @@ def main(chk):
 
     # nested programs
     prof = gen.Profile(ops=set(gen.INT_OPS), types=[I32, I64], nan_canon=False, w_trace=0.3)
-    nmods = 25 if quick else 1500
+    nmods = 160 if quick else 1500
     vectors = 8 if quick else 12
     pbuilds = [('gcc-O1', 'gcc', ['-O1'], [], None)]
     if not quick:
